@@ -30,6 +30,9 @@ ASSUMPTIONS = ["network, clock, executor and event loop are simulated (sim/); Cl
                "clock read ('locks' part)"]
 
 
+DELIVERABLE = ("rows", "void") + tuple(SP.ERR_ANSWERS)
+
+
 def proto_max(pv):
     return 127 if pv < 3 else 32767
 
@@ -87,6 +90,24 @@ class C09Observer(SP.Observer):
                 if got is not None and got != f.tag:
                     ctx.fail(["C09.delivery.crossed", "future-error"],
                              "%s: the future of request tag=%s failed with the error of tag=%s" % (where, f.tag, got))
+        # --- ... and IS delivered to it: a request whose future was still waiting when the server answered on its
+        #     stream (connection alive) has had its handler invoked
+        for s in m.sreqs:
+            if s.delivery_checked or s.answered is None:
+                continue
+            s.delivery_checked = True
+            if s.late or s.answered not in DELIVERABLE or s.conn.is_closed or s.conn.is_defunct:
+                continue
+            recs = [r for r in s.conn.handlers if r.stream == s.stream and r.tag == s.tag and r.t <= s.t_answered]
+            if recs and not recs[-1].calls:
+                why = "stream-orphaned-by-another-request's-timeout" if any(
+                    f.tag != s.tag and f.future is not None and f.pair.eb and f.future._req_id == s.stream and
+                    f.future._connection is s.conn for f in m.futs.values()) else "unknown"
+                ctx.fail(["C09.delivery.lost", why],
+                         "%s: the server answered request tag=%s on connection #%d stream %d (%s) while its future was "
+                         "still waiting, but the handler registered for that request was never invoked (stream now %s)" % (
+                             where, s.tag, s.conn.sim_id, s.stream, s.answered,
+                             "free" if s.stream in s.conn.request_ids else "not free"))
         # --- accounting on every live pooled connection (quiescent point)
         for c in m.open_pooled():
             un = m.unanswered(c)
@@ -196,7 +217,11 @@ def _run(case, ctx, sim):
         return
     ok = m.run(case["events"])
     if ok:
-        m.finish()
+        try:
+            m.finish()
+        except U.Deadlock:
+            ctx.stats.inconclusive += 1
+            ctx.label("inconclusive:shutdown-deadlock")
     for name, e in sim.world.actor_errors:
         ctx.fail(["C09.thread-error", type(e).__name__], "virtual thread %s died with %r" % (name, e))
         break
